@@ -15,7 +15,7 @@ PROPS["C18"] = {
                    "The workload also runs the verification equation with scalars of every size class, ECVRF proving/verifying and hash-to-curve with "
                    "a shared DST longer than 255 bytes; goroutines pass the SAME read-only input buffers; a call that never returns under "
                    "concurrency is a violation decided by a budget of CPU time (not wall clock). "
-                   "A race that needs a window the perturbation never opens is missed. Does not prove absence."),
+                   "A race that needs a window the perturbation never opens is missed. Does not prove absence. The workload includes key generation through the documented default entropy source (rand == nil) from many goroutines, judged by a verdict on the generated pair."),
     "level_note": ("Trusted: the Go race detector and runtime, porcupine v1.3.0 (cross-checked by a brute-force checker on every negative "
                    "verdict and on 1,500 random histories per run), the 40-line sequential LRU model (cross-checked against verifref.LRU). "
                    "Expected values of the workload are the library's own sequential results (the property is 'equals some sequential "
